@@ -283,12 +283,17 @@ def execute (h : Hooks) (fl : Flavor) (m : Machine) (ev : Ev) (pl : Plan) (s : S
   let r := executeCore h fl m ev pl s
   if r.err.isSome then r else emit (obsRecord m r) r
 
+/-- `self.status not in ("running", "uninitialized")` -/
+def finished (status : String) : Bool := status != "running" && status != "uninitialized"
+
 def processEvent (h : Hooks) (fl : Flavor) (m : Machine) (u : UEnv) (ev : Ev) (s : St) : St :=
   match selectTransitions m s.cfg (u.genv s.ctx ev.type) ev with
   | .error (.missing n) => s.fail (.missingGuard n)
   | .ok sel =>
     sel.foldl (fun s c =>
       if s.err.isSome then s
+      -- an earlier transition of this macrostep completed / failed / stopped the machine: `break`
+      else if finished s.status then s
       else if sel.length > 1 && !(s.cfg.contains c.src) then s
       else execute h fl m ev (planTransition m s.cfg s.hist c) s) s
 
